@@ -199,6 +199,98 @@ def run(chk, ctx) -> None:
                     chk.ob('C16.verbs', f'args:{" ".join(lits)}', len(calls) == 1 and ctx.m.eq(calls[0], want_calls[lits]), ctx.loc(pa, case.pattern),
                            'the parsed operation receives the written value (amount through parse_value, cards and player in order)',
                            got=[T.show(c) for c in calls], want=want_calls[lits])
+    # the writer's flow: one action text (or none) per operation, buffered dealings flushed before every other operation and at
+    # the end, the collected actions and the layout handed to the history
+    from .c17 import arms_of, op_var
+    m = ctx.m
+    opv = op_var(fgs.node)
+    loops = [n for n in walk_no_nested(fgs.node) if isinstance(n, ast.For) and isinstance(n.target, ast.Name) and n.target.id == opv]
+    flow = {}
+    if len(loops) == 1:
+        lp = loops[0]
+        last = lp.body[-1]
+        flow['every non-empty action is appended (stripped), last thing in the loop'] = isinstance(last, ast.If) and not last.orelse \
+            and m.eq(T.cond(last.test), 'action is not None', boolean=True, fn=fgs.node) \
+            and len(last.body) == 1 and bool(m.calls(last, 'actions.append(action.strip())'))
+        first = lp.body[0]
+        flow['buffered dealings are flushed before anything that is not a dealing'] = isinstance(first, ast.If) and not first.orelse \
+            and m.eq(T.cond(first.test), f'not compression_status or not isinstance({opv}, HoleDealing | BoardDealing)', boolean=True, fn=fgs.node) \
+            and len(first.body) == 1 and bool(m.calls(first, 'append_dealing_actions()'))
+        chain = [st for st in lp.body if isinstance(st, ast.If) and 'isinstance' in ast.unparse(st.test) and st is not first]
+        unassigned = []
+        if chain:
+            cur = chain[0]
+            arms = []
+            while True:
+                arms.append(cur.body)
+                if len(cur.orelse) == 1 and isinstance(cur.orelse[0], ast.If):
+                    cur = cur.orelse[0]
+                    continue
+                arms.append(cur.orelse)
+                break
+            for body in arms:
+                if not any(isinstance(x, ast.Assign) and isinstance(x.targets[0], ast.Name) and x.targets[0].id == 'action' for st in body for x in ast.walk(st)):
+                    unassigned.append(ast.unparse(body[0])[:40] if body else '<missing else>')
+            pre = any(isinstance(st, ast.Assign) and isinstance(st.targets[0], ast.Name) and st.targets[0].id == 'action' for st in lp.body[:lp.body.index(chain[0])])
+            flow['every kind of operation sets the action text (or None) afresh: no text is carried over from the previous operation'] = pre or not unassigned
+        else:
+            flow['one if/elif chain over the operation kinds'] = False
+        after = fgs.node.body[fgs.node.body.index(lp) + 1:] if lp in fgs.node.body else []
+        flow['buffered dealings are flushed after the last operation'] = bool(after) and isinstance(after[0], ast.Expr) and m.eq(T.norm(after[0].value), 'append_dealing_actions()', fn=fgs.node)
+    else:
+        flow['one loop over state.operations'] = False
+    for key, val in (('variant', 'variant'), ('actions', 'actions'), ('starting_stacks', 'list(state.starting_stacks)'),
+                     ('ante_trimming_status', 'game.ante_trimming_status')):
+        flow[f'{key} handed to the history'] = bool(m.calls(fgs.node, f"kwargs.setdefault('{key}', {val})"))
+    missing = [k for k, v in flow.items() if not v]
+    chk.ob('C16.verbs', 'writer_flow', not missing, fgs.loc,
+           'the writer emits one action text per operation (dealings buffered and flushed in order), appends every text, and hands the '
+           'actions, the variant, the starting stacks and the ante mode to the history', got=f'not found: {missing}' if missing else 'ok')
+    # the whole reader table: per shape of the words, the player check and the state call (label checked against the player the
+    # engine expects, commentary passed on); nothing but these shapes is accepted
+    arms_want = {
+        ('d', 'db', '*'): ['state.deal_board(cards)'],
+        ('d', 'dh', '*', '*'): ['state.deal_hole(cards, get_player_index(), commentary=commentary)'],
+        ('*', 'sd'): ['verify_player(state.stander_pat_or_discarder_index)', 'state.stand_pat_or_discard(commentary=commentary)'],
+        ('*', 'sd', '*'): ['verify_player(state.stander_pat_or_discarder_index)', 'state.stand_pat_or_discard(cards, commentary=commentary)'],
+        ('*', 'pb'): ['verify_player(state.actor_index)', 'state.post_bring_in(commentary=commentary)'],
+        ('*', 'f'): ['verify_player(state.actor_index)', 'state.fold(commentary=commentary)'],
+        ('*', 'cc'): ['verify_player(state.actor_index)', 'state.check_or_call(commentary=commentary)'],
+        ('*', 'cbr', '*'): ['verify_player(state.actor_index)', 'state.complete_bet_or_raise_to(parse_value(amount), commentary=commentary)'],
+        ('*', 'sm'): ['state.show_or_muck_hole_cards(False, get_player_index(), commentary=commentary)'],
+        ('*', 'sm', '-'): ['state.show_or_muck_hole_cards(True, get_player_index(), commentary=commentary)'],
+        ('*', 'sm', '*'): ['state.show_or_muck_hole_cards(cards, get_player_index(), commentary=commentary)'],
+        (): ['state.no_operate(commentary=commentary)'],
+    }
+    matches = [n for n in walk_no_nested(pa.node) if isinstance(n, ast.Match)]
+    got_arms = {}
+    default_raises = False
+    for mt in matches[:1]:
+        for case in mt.cases:
+            pat = case.pattern
+            if isinstance(pat, ast.MatchSequence):
+                shape = tuple(sp.value.value if isinstance(sp, ast.MatchValue) and isinstance(sp.value, ast.Constant) else '*' for sp in pat.patterns)
+                got_arms[shape] = [T.norm(st.value) if isinstance(st, ast.Expr) else ('stmt', type(st).__name__) for st in case.body]
+            elif isinstance(pat, ast.MatchAs) and pat.pattern is None:
+                default_raises = len(case.body) == 1 and isinstance(case.body[0], ast.Raise) and 'ValueError' in ast.unparse(case.body[0])
+    bad_arms = []
+    for shape, want_body in arms_want.items():
+        got_body = got_arms.get(shape)
+        if got_body is None or len(got_body) != len(want_body) or not all(ctx.m.eq(g, w, fn=pa.node) for g, w in zip(got_body, want_body)):
+            bad_arms.append(' '.join(shape) or '(no words)')
+    extra_arms = [' '.join(k) for k in got_arms if k not in arms_want]
+    chk.ob('C16.verbs', 'reader_table', len(matches) == 1 and not bad_arms and not extra_arms and default_raises, pa.loc,
+           'every action shape is read as: check the written player against the player the engine expects (drawer / actor), then the one '
+           'operation with the written values and the commentary; a comment alone is a no-operation; anything else is an error',
+           got=f'differs: {bad_arms}; unknown shapes: {extra_arms}; default raises ValueError: {default_raises}')
+    helpers_ok = bool(ctx.m.ifs(pa.node, "'#' in words")) and bool(ctx.m.assigns(pa.node, "words[:words.index('#')]")) \
+        and bool(ctx.m.assigns(pa.node, 'action.split()'))
+    vp = [n for n in ast.walk(pa.node) if isinstance(n, ast.FunctionDef) and n.name == 'verify_player']
+    vp_ok = len(vp) == 1 and any(isinstance(x, ast.If) and ctx.m.eq(T.cond(x.test), 'get_player_index() != index', boolean=True)
+                                  and any(isinstance(r, ast.Raise) for r in x.body) for x in ast.walk(vp[0]))
+    chk.ob('C16.verbs', 'reader_words', helpers_ok and vp_ok, pa.loc,
+           'the words of an action end at `#`; a player label that is not the expected player is an error (never silently another player)',
+           got=f'words cut at #: {helpers_ok}; label check raises: {vp_ok}')
     sm = {}
     for n in ast.walk(pa.node):
         if not isinstance(n, ast.Match):
@@ -225,6 +317,18 @@ def run(chk, ctx) -> None:
             rd.append(n)
     wr = [n for n in ast.walk(fgs.node) if isinstance(n, ast.JoinedStr) and [v.value for v in n.values if isinstance(v, ast.Constant)] in ([' # '], ['# '])
           and any(isinstance(v, ast.FormattedValue) and 'commentary' in ast.unparse(v.value) for v in n.values)]
+    # ... attached to the action text when there is one, a line of its own otherwise
+    pol = False
+    for n in ctx.m.ifs(fgs.node, 'operation.commentary is not None'):
+        inner = [x for x in n.body if isinstance(x, ast.If)]
+        if len(inner) == 1 and inner[0].orelse:
+            alone, attached = (inner[0].body, inner[0].orelse) if ctx.m.eq(T.cond(inner[0].test), 'action is None', boolean=True, fn=fgs.node) \
+                else (inner[0].orelse, inner[0].body) if ctx.m.eq(T.cond(inner[0].test), 'action is not None', boolean=True, fn=fgs.node) else (None, None)
+            if alone is not None:
+                pol = any(isinstance(x, ast.JoinedStr) and [v.value for v in x.values if isinstance(v, ast.Constant)] == ['# '] for st in alone for x in ast.walk(st)) \
+                    and any(isinstance(x, ast.BinOp) and isinstance(x.op, ast.Add) and 'action.strip()' in ast.unparse(x.left) for st in attached for x in ast.walk(st))
+    chk.ob('C16.commentary', 'from_game_state:placement', pol, fgs.loc,
+           'a commentary is appended to the stripped action text with ` # `, or forms a line `# text` of its own when the operation has no text')
     chk.ob('C16.commentary', 'parse_action~from_game_state', len(rd) == 1 and len(wr) == 2, pa.loc,
            'a commentary is written verbatim after `# ` and read back as the raw remainder of the line (no re-tokenising: inner spacing is text)',
            got=f'reader takes the raw slice: {len(rd) == 1}; writer forms found: {len(wr)}')
@@ -359,7 +463,48 @@ def _replay(chk, ctx, hh) -> None:
         chk.ob('C16.pairs', f'state_actions:{q.func.attr}', ok and same_args, ctx.loc(sa, node),
                'a repair step performs exactly the operation its availability test names, with the arguments that were tested (or unknown cards)',
                got=[stmt_text(c) for c in calls], want=want)
-    chk.floor('C16.pairs', 12)
+    # the documented repair: which omitted step is filled in first, and under which extra conditions (a free check only while
+    # actions remain, a fold only while actions remain, a show only while the hand is running)
+    want_chain = [
+        f'{sv}.can_post_ante()', f'{sv}.can_collect_bets()', f'{sv}.can_post_blind_or_straddle()', f'{sv}.can_burn_card()', f'{sv}.can_deal_hole()',
+        f'ACTIONS and not {sv}.checking_or_calling_amount and {sv}.can_check_or_call()', f'ACTIONS and {sv}.can_fold()',
+        f'{sv}.status and {sv}.can_show_or_muck_hole_cards(())', f'{sv}.can_select_runout_count()', f'{sv}.can_kill_hand()',
+        f'{sv}.can_push_chips()', f'{sv}.can_pull_chips()',
+    ]
+    qs0 = [n.targets[0].id for n in ctx.m.assigns(sa.node, 'deque(self.actions)') if isinstance(n.targets[0], ast.Name)]
+    chain_ok = False
+    got_chain = []
+    for node in ast.walk(sa.node):
+        if isinstance(node, ast.If) and (ctx.m.eq(T.cond(node.test), f'{sv}.can_post_ante()', boolean=True)
+                                         or ctx.m.eq(T.cond(node.test), f'not {sv}.can_post_ante()', boolean=True)):
+            cur = node
+            tests = []
+            tail = None
+            while True:
+                # (either polarity of every link: `if c: A else: <rest>` or `if not c: <rest> else: A`)
+                if len(cur.orelse) == 1 and isinstance(cur.orelse[0], ast.If):
+                    tests.append(T.cond(cur.test))
+                    cur = cur.orelse[0]
+                    continue
+                if len(cur.body) == 1 and isinstance(cur.body[0], ast.If) and cur.orelse:
+                    tests.append(T.mk_not(T.cond(cur.test)))
+                    cur = cur.body[0]
+                    continue
+                if len(cur.body) == 1 and isinstance(cur.body[0], ast.Break) and cur.orelse:
+                    tests.append(T.mk_not(T.cond(cur.test)))
+                    tail = cur.body
+                else:
+                    tests.append(T.cond(cur.test))
+                    tail = cur.orelse
+                break
+            got_chain = [T.show(t) for t in tests]
+            want_terms = [T.spec(w.replace('ACTIONS', qs0[0] if qs0 else 'actions'), boolean=True) for w in want_chain]
+            chain_ok = tests == want_terms and len(tail) == 1 and isinstance(tail[0], ast.Break)
+    chk.ob('C16.pairs', 'state_actions:repair_order', chain_ok, sa.loc,
+           'omitted steps are filled in this order and under these conditions: ante, collection, blind, burn, hole deal, a free check or a fold '
+           '(only while written actions remain), a muck (only while the hand runs), run-out choice, kill, push, pull; otherwise the replay stops',
+           got=got_chain)
+    chk.floor('C16.pairs', 13)
     # no silent truncation: leftover actions are an error
     qs = [n.targets[0].id for n in ctx.m.assigns(sa.node, 'deque(self.actions)') if isinstance(n.targets[0], ast.Name)]
     qn = qs[0] if qs else 'actions'
@@ -399,6 +544,27 @@ def _dump(chk, ctx, hh) -> None:
     loops = [n for n in dm.body if isinstance(n, ast.For)]
     ok = len(loops) == 2 and all('is not None' in ast.unparse(l) for l in loops) and 'user_defined_fields' in ast.unparse(loops[1].iter)
     chk.ob('C16.dump', 'HandHistory.dumps:loops', ok, dm.loc, 'known fields then user-defined fields are written, None values skipped (TOML has no null)')
+    # the container forms: a list is `[a, b]`, a table is `{k = v, ...}` of cleaned keys and values, a string goes through the string writer
+    m = ctx.m
+    shapes = {
+        'list': bool(m.assigns(cv, "'[' + ', '.join(map(clean_value, value)) + ']'")),
+        'inline table': bool(m.exprs(cv, "'{' + ', '.join(map(' = '.join, zip(map(clean_key, value.keys()), map(clean_value, value.values())))) + '}'"))
+        or (bool(m.exprs(cv, "'{' + ', '.join(pairs) + '}'")) and bool(m.exprs(cv, "map(' = '.join, zip(keys, values))"))
+            and bool(m.exprs(cv, 'map(clean_key, value.keys())')) and bool(m.exprs(cv, 'map(clean_value, value.values())'))),
+        'string (multi-line allowed)': bool(m.exprs(cv, 'clean_string(value, True)')),
+        'key (single line)': bool(m.exprs(ck, 'clean_string(key, False)')),
+        'bool in lower case': bool(m.exprs(cv, 'repr(value).lower()')),
+    }
+    missing = [k for k, v in shapes.items() if not v]
+    chk.ob('C16.dump', 'HandHistory.dumps:containers', not missing, ctx.loc(dm, cv),
+           'lists, inline tables, strings, keys and booleans are written in their TOML forms from cleaned parts', got=f'not found: {missing}' if missing else 'ok')
+    # the file forms are the string forms: dump writes dumps() encoded, load reads loads() of the decoded content
+    dp, lf = hh.methods.get('dump'), hh.methods.get('load')
+    ok_d = dp is not None and bool(m.calls(dp.node, 'fp.write(self.dumps().encode())'))
+    ok_l = lf is not None and any(isinstance(n, ast.Return) and n.value is not None and 'cls.loads(' in ast.unparse(n.value) and '.read()' in ast.unparse(n.value)
+                                   and '.decode()' in ast.unparse(n.value) for n in ast.walk(lf.node))
+    chk.ob('C16.dump', 'HandHistory.dump/load', ok_d and ok_l, dp.loc if dp else hh.loc,
+           'dump writes exactly dumps() (encoded) and load reads exactly loads() of the decoded file', got=f'dump: {ok_d}; load: {ok_l}')
     # loads: unknown keys become user fields; parse_float goes through parse_value
     ld = hh.methods.get('loads')
     ok = ld is not None and any(isinstance(n, ast.Call) and getattr(n.func, 'id', '') == 'loads_toml'
